@@ -399,6 +399,9 @@ def handle (line : String) : String :=
   | ["rsatag", _, n, _] => (if n == "0" then "ok" else "err") ++ "\t-"
   | ["servecost", world, impl] => doCost world impl
   | ["didread", m, arg, impl] => doDidRead m arg impl
+  | ["structread", sc, v, _, _] => (match StructRdJson.run sc v with
+      | .ok r => s!"{r}\t-"
+      | .error e => bad s!"structread {e}")
   | ["rdtree", t, xs, _] => (match RdJson.run t xs with
       | .ok r => s!"{r}\t-"
       | .error e => bad s!"rdtree {e}")
